@@ -340,7 +340,8 @@ def name_hostile(rng, profile=None):
         return name_plain(rng, 2) + rng.choice([b"\t", b"\x01", b"\x1b[31m", b"\r", b"\x7f"]) \
             + name_plain(rng, 2)
     if profile == "lf":
-        return name_plain(rng, 2) + b"\n" + name_plain(rng, 2)
+        return name_plain(rng, 2) + b"\n" + rng.choice([name_plain(rng, 2), name_plain(rng, 2), b"[1]  injected" + name_plain(rng, 1),
+                                                        b"[9]  " + name_plain(rng, 2), b"| x [3] |"])
     if profile == "nonutf8":
         return name_plain(rng, 2) + rng.choice([b"\xff", b"\xc3\x28", b"\xe2\x82", b"\x80\x81"]) \
             + name_plain(rng, 2)
